@@ -22,6 +22,11 @@
 //  Constraint stage (1/3 of the cases, 1-2 Ball/Rod constraints, state not assembled): R1 (prescribed values are untouched by
 //       the constraint solve), D1 in the form calcResidualForce(applied, udot, lambda) == -tau (M udot + ~G lambda + tau = f),
 //       D2, R2 and the non-dynamic part of M2 are judged; the twin comparisons (M1, release udot) only without constraints.
+//  (H)  same-State history: on the State already realized to Acceleration, first the run-time parameters (Steady::setRate /
+//       setOneRate, lockAt with new values, lock at another level, unlock, new locks, Motion::disable / enable), then only u,
+//       only q, only t, then parameters again are changed; after each step prescribe + realize must give my own evaluation of
+//       the documented motion with the NEW parameters and must agree (q, u bitwise; udot, qdot, qdotdot, multipliers, motion
+//       errors, power to 1e-12) with a FRESH State that received the same t, q, u and parameters before its first realization.
 //  (M2) release: unlock() + Motion::disable() on every mobilizer => no multipliers, prescribe() changes nothing, udot ==
 //       the twin's free udot; a lock on top of a Motion: after unlock() alone the Motion is back in control.
 #include "pbt.h"
@@ -139,6 +144,7 @@ void property(const pbt::Tape& t, pbt::Ctx& ctx) {
     }
     // state-level operations in body order
     std::vector<std::vector<double>> lockQ(NB), lockU(NB);     // recorded lock values
+    std::vector<char> motOn(NB, 0); std::vector<int> lockLvl(NB, -1);   // current configuration (used by the history steps)
     for (int i = 1; i <= nb; ++i) {
         const presc::MotionSpec& ms = mot[i]; const MobilizedBody& mb = P.m.mb[i];
         eff[i].kind = ms.kind; eff[i].level = ms.level;
@@ -152,6 +158,7 @@ void property(const pbt::Tape& t, pbt::Ctx& ctx) {
             if ((ms.variant & 4) && nub[i] >= 2) { st.setOneRate(s, MobilizerUIndex(1), r2); mot[i].rate[1] = r2; if (ms.steadyScalar) { mot[i].steadyScalar = false; } }
             else { st.setRate(s, r2); for (int k = 0; k < 6; ++k) mot[i].rate[k] = r2; }
         }
+        motOn[i] = ms.isMotion();
         const Vector qBefore = s.getQ(), uBefore = s.getU();
         int lockLevel = -1; bool at = false;
         if (ms.kind == presc::Lock) lockLevel = ms.level; else if (ms.kind == presc::LockAt) { lockLevel = ms.level; at = true; } else if (overLock[i] >= 0) lockLevel = overLock[i];
@@ -160,6 +167,7 @@ void property(const pbt::Tape& t, pbt::Ctx& ctx) {
             lockQ[i].assign(nqb[i], 0); lockU[i].assign(nub[i], 0);
             for (int k = 0; k < nqb[i]; ++k) lockQ[i][k] = qDef[q0[i] + k];
             for (int k = 0; k < nub[i]; ++k) lockU[i][k] = ms.level == 1 ? uDef[u0[i] + k] : 0;
+            lockLvl[i] = ms.level;
         }
         if (lockLevel >= 0) {
             const Motion::Level lvl = lockLevel == 0 ? Motion::Acceleration : lockLevel == 1 ? Motion::Velocity : Motion::Position;
@@ -173,7 +181,7 @@ void property(const pbt::Tape& t, pbt::Ctx& ctx) {
                 for (int k = 0; k < nqb[i]; ++k) lockQ[i][k] = qBefore[q0[i] + k];
                 for (int k = 0; k < nub[i]; ++k) lockU[i][k] = lockLevel == 1 ? uBefore[u0[i] + k] : 0;    // acceleration lock() prescribes udot = 0
             }
-            eff[i].kind = at ? presc::LockAt : presc::Lock; eff[i].level = lockLevel;
+            eff[i].kind = at ? presc::LockAt : presc::Lock; eff[i].level = lockLevel; lockLvl[i] = lockLevel;
             // documented side effects on the state, and nothing else touched
             if (!ctx.check(mb.isLocked(s) && mb.getLockLevel(s) == lvl, "body " + std::to_string(i) + ": getLockLevel does not report the lock just placed")) return;
             {   Vector lv = mb.getLockValueAsVector(s); const int n = lockLevel == 2 ? nqb[i] : nub[i];
@@ -390,6 +398,97 @@ void property(const pbt::Tape& t, pbt::Ctx& ctx) {
         const Real tol3 = 100 * Eps * nu * (kappa * refdyn::maxAbs(udotFree) + fScale / lmin) + 1e-300;
         if (!constrained) for (int i = 0; i < nu; ++i) if (!(std::abs(s3.getUDot()[i] - udotFree[i]) <= tol3)) { ctx.fail("after unlock()/Motion::disable() udot[" + std::to_string(i) + "]=" + S(s3.getUDot()[i]) + " differs from the free twin's " + S(udotFree[i]) + " (tol " + S(tol3) + ")"); return; }
     }
+    // ---- (H) same-State history: run-time parameters of the prescriptions, then u, q and t are changed one kind at a time on
+    // the SAME State (already realized to Acceleration, caches populated); after each step prescribe + realize must give
+    // (i) the values of MY evaluation of the documented motion with the NEW parameters and (ii) exactly what a FRESH State
+    // (default state, same t,q,u, same parameters set before its first realization) gives.
+    {
+        double tNow = tCase; bool route = !useSystemPrescribe;
+        auto deriveEff = [&]() { for (int i = 1; i <= nb; ++i) {
+            if (lockLvl[i] >= 0) { eff[i].kind = presc::LockAt; eff[i].level = lockLvl[i]; }
+            else if (mot[i].isMotion() && motOn[i]) { eff[i].kind = mot[i].kind; eff[i].level = mot[i].level; }
+            else { eff[i].kind = presc::None; eff[i].level = 2; } } };
+        auto lvlOf = [](int l) { return l == 0 ? Motion::Acceleration : l == 1 ? Motion::Velocity : Motion::Position; };
+        auto cmpVec = [&](const Vector& a, const Vector& b, const std::string& what, const std::string& phase, bool bitwise) -> bool {
+            if (a.size() != b.size()) { ctx.fail(phase + what + " has " + std::to_string(a.size()) + " entries on the same State but " + std::to_string(b.size()) + " on a fresh State"); return false; }
+            Real sc = 1; for (int j = 0; j < a.size(); ++j) sc = std::max(sc, std::abs(b[j]));
+            for (int j = 0; j < a.size(); ++j) if (bitwise ? !bitEq(a[j], b[j]) : !(std::abs(a[j] - b[j]) <= 1e-12 * sc)) {
+                ctx.fail(phase + what + "[" + std::to_string(j) + "]=" + S(a[j]) + " on the State with history, but " + S(b[j]) + " on a fresh State with the same t, q, u and parameters"); return false; }
+            return true; };
+        // returns 0 ok, 1 failed, 2 rejected
+        auto runStep = [&](const std::string& name) -> int {
+            const std::string phase = "history step '" + name + "' on the same State: ";
+            const Vector qB = s.getQ(), uB = s.getU();
+            deriveEff(); expectAll(eff, tNow);
+            nKnownQ = nKnownU = nKnownUd = 0; for (int j = 0; j < nq; ++j) if (qK[j]) nKnownQ++; for (int j = 0; j < nu; ++j) { if (uK[j]) nKnownU++; if (udK[j]) nKnownUd++; }
+            route = !route;
+            try { prescribeAndRealize(s, route); }
+            catch (const std::exception&) { if (constrained) { ctx.reject("constraint-solve-refused"); return 2; } throw; }
+            if (constrained) for (int j = 0; j < nu; ++j) if (!std::isfinite(s.getUDot()[j])) { ctx.reject("constraint-multiplier-blowup"); return 2; }
+            if (!judgeValues(s, qB, uB, phase)) return 1;
+            // fresh State
+            State sF = P.m.sys.getDefaultState();
+            P.m.matter.setUseEulerAngles(sF, spec.euler); P.m.sys.realizeModel(sF);
+            sF.updQ() = qB; sF.updU() = uB;
+            for (int i = 1; i <= nb; ++i) { const MobilizedBody& mb = P.m.mb[i];
+                if (mot[i].isMotion()) { if (motOn[i]) P.motion[i].enable(sF); else P.motion[i].disable(sF);
+                    if (mot[i].kind == presc::Steady) { const Motion::Steady& st = Motion::Steady::downcast(P.motion[i]); for (int k = 0; k < nub[i]; ++k) st.setOneRate(sF, MobilizerUIndex(k), mot[i].rate[k]); } }
+                if (lockLvl[i] >= 0) { const int n = lockLvl[i] == 2 ? nqb[i] : nub[i]; Vector v(n); for (int k = 0; k < n; ++k) v[k] = lockLvl[i] == 2 ? lockQ[i][k] : lockU[i][k]; mb.lockAt(sF, v, lvlOf(lockLvl[i])); }
+                else mb.unlock(sF); }
+            sF.setTime(tNow); P.disc.setAllMobilityForces(sF, f); P.disc.setAllBodyForces(sF, F);
+            try { prescribeAndRealize(sF, route); }
+            catch (const std::exception&) { if (constrained) { ctx.reject("constraint-solve-refused"); return 2; } throw; }
+            if (!cmpVec(s.getQ(), sF.getQ(), "q", phase, true) || !cmpVec(s.getU(), sF.getU(), "u", phase, true)) return 1;
+            if (!cmpVec(s.getUDot(), sF.getUDot(), "udot", phase, false) || !cmpVec(s.getQDot(), sF.getQDot(), "qdot", phase, false) || !cmpVec(s.getQDotDot(), sF.getQDotDot(), "qdotdot", phase, false)) return 1;
+            if (!cmpVec(matter.getMotionMultipliers(s), matter.getMotionMultipliers(sF), "motion multiplier", phase, false)) return 1;
+            if (!cmpVec(s.getMultipliers(), sF.getMultipliers(), "constraint multiplier", phase, false)) return 1;
+            for (int k = 0; k < 3; ++k) { const Stage st = k == 0 ? Stage::Position : k == 1 ? Stage::Velocity : Stage::Acceleration;
+                if (!cmpVec(matter.calcMotionErrors(s, st), matter.calcMotionErrors(sF, st), std::string("calcMotionErrors(") + st.getName() + ")", phase, false)) return 1; }
+            { Real a = matter.calcMotionPower(s), b = matter.calcMotionPower(sF); if (!(std::abs(a - b) <= 1e-12 * (1 + std::abs(a) + std::abs(b)))) { ctx.fail(phase + "calcMotionPower=" + S(a) + " on the State with history, " + S(b) + " on a fresh State"); return 1; } }
+            return 0; };
+        auto pick = [&](int n) { int k = int((rng.next() + 1) * 0.5 * n); return k < 0 ? 0 : k >= n ? n - 1 : k; };
+        auto newLock = [&](int i, int lvl, bool at) {      // place / replace a lock on the same State; q is never touched by me
+            const MobilizedBody& mb = P.m.mb[i]; lockQ[i].assign(nqb[i], 0); lockU[i].assign(nub[i], 0);
+            if (at) { double v[7]; for (int k = 0; k < nub[i]; ++k) { v[k] = 2 * rng.next(); lockU[i][k] = v[k]; } lockAtBySignature(mb, s, v, nub[i], lvlOf(lvl), pick(3)); }   // levels 0/1 only
+            else { for (int k = 0; k < nqb[i]; ++k) lockQ[i][k] = s.getQ()[q0[i] + k]; for (int k = 0; k < nub[i]; ++k) lockU[i][k] = lvl == 1 ? s.getU()[u0[i] + k] : 0.0; mb.lock(s, lvlOf(lvl)); }
+            lockLvl[i] = lvl; };
+        // H1: parameters only
+        auto paramStep = [&](bool second) { bool any = false;
+            for (int i = 1; i <= nb; ++i) { if (nub[i] == 0) continue; const int op = pick(6);
+                const bool motionActive = lockLvl[i] < 0 && mot[i].isMotion() && motOn[i];
+                if (second && mot[i].isMotion() && !motOn[i]) { P.motion[i].enable(s); motOn[i] = 1; ctx.label("history:motion-enable"); any = true; continue; }
+                if (motionActive && mot[i].kind == presc::Steady && op <= 3) { const Motion::Steady& st = Motion::Steady::downcast(P.motion[i]); const double r3 = 2 * rng.next();
+                    if (op <= 1 || nub[i] == 1) { st.setRate(s, r3); for (int k = 0; k < 6; ++k) mot[i].rate[k] = r3; ctx.label("history:steady-setRate"); }
+                    else { const int k = pick(nub[i]); st.setOneRate(s, MobilizerUIndex(k), r3); mot[i].rate[k] = r3; ctx.label("history:steady-setOneRate"); }
+                    if (!bitEq(st.getOneRate(s, MobilizerUIndex(0)), mot[i].rate[0])) { ctx.fail("Motion::Steady::getOneRate does not report the rate just set"); return -1; }
+                    any = true; }
+                else if (lockLvl[i] >= 0) {
+                    if (op <= 1) { const int lvl = lockLvl[i] == 2 ? pick(2) : lockLvl[i]; ctx.label(lvl == lockLvl[i] ? "history:lock-value-change" : "history:lock-level-change"); newLock(i, lvl, true); any = true; }
+                    else if (op == 2) { const int lvl = (lockLvl[i] + 1 + pick(2)) % 3; newLock(i, lvl, false); ctx.label("history:lock-level-change"); any = true; }
+                    else if (op <= 4) { P.m.mb[i].unlock(s); lockLvl[i] = -1; ctx.label("history:unlock"); any = true; } }
+                else if (motionActive) {
+                    if (op % 2 == 0) { P.motion[i].disable(s); motOn[i] = 0; ctx.label("history:motion-disable"); any = true; }
+                    else { newLock(i, pick(3), false); ctx.label("history:lock-over-motion"); any = true; } }
+                else if (op <= 2) { if (op == 0) newLock(i, pick(3), false); else newLock(i, pick(2), true); ctx.label("history:new-lock"); any = true; }
+            }
+            return any ? 1 : 0; };
+        int r = paramStep(false); if (r < 0) return;
+        if (r > 0) { ctx.label("history:parameters-only"); if (runStep("parameter change (t, q unchanged)") != 0) return; }
+        deriveEff(); expectAll(eff, tNow);      // (the masks may be those of the M2 block)
+        // H2: u only (free speeds get new values, prescribed speeds are scribbled on and must be restored)
+        for (int j = 0; j < nu; ++j) s.updU()[j] = uK[j] ? s.getU()[j] + 0.5 : 2 * rng.next();
+        ctx.label("history:u-only"); if (runStep("u changed") != 0) return;
+        // H3: q only (free non-quaternion coordinates move a little inside their domains; prescribed q are scribbled on)
+        for (int i = 1; i <= nb; ++i) { const bool quat = nqb[i] == 4 || nqb[i] == 7;
+            for (int k = 0; k < nqb[i]; ++k) { const int j = q0[i] + k; if (qK[j]) s.updQ()[j] = s.getQ()[j] + 0.1; else if (!(quat && k < 4)) s.updQ()[j] = s.getQ()[j] + 0.01 * rng.next(); } }
+        ctx.label("history:q-only"); if (runStep("q changed") != 0) return;
+        // H4: t only
+        tNow = tCase + 0.003; s.setTime(tNow);
+        ctx.label("history:t-only"); if (runStep("t changed") != 0) return;
+        // H5: parameters again (disabled Motions are enabled, locks removed or changed, rates changed)
+        r = paramStep(true); if (r < 0) return;
+        if (r > 0) { if (runStep("second parameter change (t, q unchanged)") != 0) return; }
+    }
     if (getenv("C10_CALIB")) fprintf(stderr, "CALIB c=%d kappa=%.3g TWIN=%.3g RES=%.3g MINV=%.3g\n", (int)constrained, kappa, worstTwin, worstRes, worstMInv);
 }
 
@@ -423,14 +522,15 @@ void directedLockAtVelocity(pbt::Ctx& ctx) {
 pbt::Config config() {
     pbt::Config c; c.prop = "C10"; c.K = mbgen::K; c.minUnits = 1;
     c.quick = {2000, 12000, 24, 25}; c.thorough = {15000, 60000, 24, 240};
-    c.rule = "rapidcheck tape -> mbgen tree (1..6 bodies, 18 mobilizer types, forward/reversed, frames, quaternion/Euler); each mobilizer with nu>0 carries with probability 7/12 a prescription: Motion::Steady (scalar or per-mobility rates, optionally changed in the State), Motion::Sinusoid, Motion::Custom polynomial/axis-angle trajectory at Position/Velocity/Acceleration level, lock(), lockAt() (three signatures), lockByDefault() at the three levels; 1/5 of the Motions additionally get a lock on top, half of the Motions are created disabled-by-default and enabled in the State; random time in [0,2], gravity, mobility forces and body wrenches; 1/3 of the cases add 1-2 Constraint::Ball/Rod between random bodies. Non-trivial: a prescribed mobilizer with a free ancestor and a free descendant, and >= 2 prescribed mobilities; distinct by tape hash.";
+    c.rule = "rapidcheck tape -> mbgen tree (1..6 bodies, 18 mobilizer types, forward/reversed, frames, quaternion/Euler); each mobilizer with nu>0 carries with probability 7/12 a prescription: Motion::Steady (scalar or per-mobility rates, optionally changed in the State), Motion::Sinusoid, Motion::Custom polynomial/axis-angle trajectory at Position/Velocity/Acceleration level, lock(), lockAt() (three signatures), lockByDefault() at the three levels; 1/5 of the Motions additionally get a lock on top, half of the Motions are created disabled-by-default and enabled in the State; random time in [0,2], gravity, mobility forces and body wrenches; 1/3 of the cases add 1-2 Constraint::Ball/Rod between random bodies; every case ends with a same-State history (parameters only: Steady setRate/setOneRate, lockAt with new values, lock level change, unlock, new locks, Motion disable/enable; then u only, q only, t only, parameters again), each step judged against my evaluation and against a fresh State. Non-trivial: a prescribed mobilizer with a free ancestor and a free descendant, and >= 2 prescribed mobilities; distinct by tape hash.";
     c.assumptions = {"position-level trajectories are generated inside the mobilizers' documented non-singular domains (presc.h): unit quaternions with tangent derivatives, no coordinate trajectories on LineOrientation/FreeLine/SphericalCoords-Sinusoid",
                      "prescribed values: 4 eps x (|a|+|b|+1) against the same formula evaluated in the harness, bitwise for locks and zeros; qdot/qdotdot of qdot!=u mobilizers 1e3..1e4 eps x (1+|u|)^2",
                      "twin / release udot: 100*eps*nu*(kappa*|udot| + forceScale/lambda_min(M_ref)); residual: 1e3*eps*nu*sqrt(kappa)*forceScale; MInv: 1e3*eps*nu*kappa*|M_ff^-1|; kappa(M_ref) >= 1e8 rejected"};
     c.directed = {{"lockat-velocity-u", "lockat-velocity-u-not-set", directedLockAtVelocity}, {"beam-default-q", "cantileverfreebeam-default-q-uninitialized", directedBeamDefaultQ}};
     c.requiredLabels = {"interior-prescribed", "all-prescribed", "mixed", "presc:Steady/Velocity", "presc:Sinusoid/Position", "presc:Sinusoid/Velocity", "presc:Sinusoid/Acceleration", "presc:Traj/Position", "presc:Traj/Position/qdot!=u", "presc:Traj/Velocity/qdot!=u",
                         "presc:lock/Position", "presc:lock/Velocity", "presc:lock/Acceleration", "presc:lockAt/Position", "presc:lockAt/Position/qdot!=u", "presc:lockAt/Velocity", "presc:lockAt/Acceleration", "presc:lockByDefault/Position", "presc:lockByDefault/Velocity", "presc:lockByDefault/Acceleration",
-                        "lock-over-motion", "motion-disabled-by-default+enable", "steady-rate-set-in-state", "route:System::prescribe", "route:prescribeQ/prescribeU", "constrained+prescribed", "unconstrained"};
+                        "lock-over-motion", "motion-disabled-by-default+enable", "steady-rate-set-in-state", "route:System::prescribe", "route:prescribeQ/prescribeU", "constrained+prescribed", "unconstrained",
+                        "history:parameters-only", "history:steady-setRate", "history:steady-setOneRate", "history:lock-value-change", "history:lock-level-change", "history:unlock", "history:motion-disable", "history:motion-enable", "history:lock-over-motion", "history:new-lock", "history:u-only", "history:q-only", "history:t-only"};
     return c;
 }
 } // namespace
